@@ -351,6 +351,7 @@ type AtSpec struct {
 	Ord  int
 	Uses []*SCall // lemma applications
 	Asserts []*Clause
+	Assumes []*Clause // environment assumptions on a value received at this point (listed in evidence)
 }
 
 type Param struct {
@@ -375,6 +376,7 @@ type Contract struct {
 	Ats      []*AtSpec
 	Props    []string
 	NoPanic  bool
+	NoPanicProps []string
 	Trusted  bool // assume-contract
 	Opaque   bool // never inline even if no ensures
 	Body     SExpr  // pred / pure body
@@ -646,6 +648,10 @@ func ReadContractFile(path, pkgPath string) ([]*Contract, error) {
 				}
 			case "nopanic":
 				tgt.NoPanic = true
+				// "nopanic C13": the safety obligations count only for the listed properties
+				for _, m := range strings.FieldsFunc(rest, func(r rune) bool { return r == ',' || r == ' ' }) {
+					tgt.NoPanicProps = append(tgt.NoPanicProps, m)
+				}
 			case "nonblocking":
 				tgt.Notes = append(tgt.Notes, "nonblocking")
 			case "assume-contract":
@@ -709,7 +715,7 @@ func ReadContractFile(path, pkgPath string) ([]*Contract, error) {
 						return nil, err
 					}
 				}
-			case "use", "assert":
+			case "use", "assert", "assume-env":
 				if curAt == nil {
 					return nil, fmt.Errorf("%s:%d: %s outside at", path, l.n, word)
 				}
@@ -788,6 +794,12 @@ func addAtClause(as *AtSpec, s string, mk func(string, string, int) (*Clause, er
 			return err
 		}
 		as.Asserts = append(as.Asserts, cl)
+	case "assume-env":
+		cl, err := mk("assume-env", rest, line)
+		if err != nil {
+			return err
+		}
+		as.Assumes = append(as.Assumes, cl)
 	default:
 		return fmt.Errorf("line %d: bad at clause %q", line, s)
 	}
